@@ -18,6 +18,8 @@ If(cond, name) == IF cond THEN {} ELSE {"DRIVER." \o name}
 ReadB == IF source = "keyboard" THEN (IF unread = <<>> THEN <<>> ELSE NonBlank(<<Head(unread)>>)) ELSE NonBlank(unread)
 ReadRest == IF source = "keyboard" THEN (IF unread = <<>> THEN <<>> ELSE Tail(unread)) ELSE <<>>
 Gaps(b) == Cardinality({i \in DOMAIN b : lines[b[i]] = "gap"})
+Bad(b) == Cardinality({i \in DOMAIN b : lines[b[i]] \in BadTagged})
+Lays(b) == [i \in DOMAIN b |-> LayoutOf(lines[b[i]], infmt)]
 Expected == IF source = "keyboard" THEN UpToBlank(All) ELSE NonBlank(All)
 
 Fails(e) ==
@@ -25,7 +27,7 @@ Fails(e) ==
     [] e.e = "tag" ->    If(pc = "read", "tag_out_of_order")
                     \cup If(pc # "read" \/ ReadB # <<>>, "tagged_an_empty_batch")
                     \cup If(pc # "read" \/ e.ix = ReadB, "batch_is_not_the_nonblank_lines_in_order")
-                    \cup If(pc # "read" \/ ~(infmt = "tagged" /\ Gaps(ReadB) > 0), "tagged_line_with_empty_item_did_not_fail")
+                    \cup If(pc # "read" \/ ~(infmt = "tagged" /\ Bad(ReadB) > 0), "tagged_line_with_a_malformed_item_did_not_fail")
                     \cup If(pc # "read" \/ e.empty_words = Gaps(ReadB), "words_are_not_the_items_between_single_blanks")
     [] e.e = "filter" -> {"DRIVER.dictionary_applied_although_the_driver_never_loads_it"}
     [] e.e = "parse" ->  If(pc = "filter", "parse_out_of_order")
@@ -34,28 +36,29 @@ Fails(e) ==
     [] e.e = "print" ->  If(pc = "print", "print_out_of_order")
                     \cup If(pc # "print" \/ e.ix = batch, "printed_records_are_not_the_batch_in_order")
                     \cup If(pc # "print" \/ e.headers = Len(batch), "not_one_header_per_record")
+                    \cup If(pc # "print" \/ e.lay = Lays(batch), "printed_token_attributes_are_not_those_of_the_input_line")
     [] e.e = "end" ->
          (CASE e.kind = "done" ->    If(pc = "done" \/ (pc = "read" /\ ReadB = <<>> /\ (source # "keyboard" \/ unread # <<>>)), "ended_although_input_remained")
                                 \cup If(out = Expected, "output_is_not_one_record_per_line_in_order")
             [] e.kind = "eof_error" -> If(pc = "read" /\ source = "keyboard" /\ unread = <<>>, "end_of_input_error_out_of_place")
-            [] e.kind = "assertion_error" -> If(pc = "read" /\ infmt = "tagged" /\ Gaps(ReadB) > 0, "assertion_error_out_of_place")
+            [] e.kind = "assertion_error" -> If(pc = "read" /\ infmt = "tagged" /\ Bad(ReadB) > 0, "assertion_error_out_of_place")
             [] OTHER -> {"DRIVER.unexpected_exception_or_exit"})
     [] OTHER -> {"MACHINERY.unknown_event"}
 
 Ok(e) == Fails(e) = {}
 Init0 == /\ l = 1 /\ lines = <<>> /\ source = "file" /\ infmt = "raw" /\ dictoff = FALSE /\ pc = "setup" /\ unread = <<>> /\ batch = <<>>
-         /\ cats = "unset" /\ dict = "unset" /\ out = <<>> /\ iter = 0
+         /\ cats = "unset" /\ dict = "unset" /\ out = <<>> /\ iter = 0 /\ lay = <<>>
 Step(e) ==
   CASE e.e = "start" -> /\ lines' = e.lines /\ source' = e.source /\ infmt' = e.infmt /\ dictoff' = e.dictoff
                         /\ pc' = "read" /\ unread' = [i \in DOMAIN e.lines |-> i] /\ batch' = <<>> /\ cats' = "unset" /\ dict' = "none"
-                        /\ out' = <<>> /\ iter' = 0                                                   \* Init . Setup
+                        /\ out' = <<>> /\ iter' = 0 /\ lay' = <<>>                                                   \* Init . Setup
     [] e.e = "tag" /\ pc = "read" -> /\ batch' = ReadB /\ unread' = ReadRest /\ pc' = "filter" /\ cats' = "parsed" /\ iter' = iter + 1
-                                     /\ UNCHANGED <<lines, source, infmt, dictoff, dict, out>>     \* Read . Check . Tokenize . Tag
-    [] e.e = "parse" /\ pc = "filter" -> pc' = "print" /\ UNCHANGED <<lines, source, infmt, dictoff, unread, batch, cats, dict, out, iter>>
-    [] e.e = "print" /\ pc = "print" -> /\ out' = out \o batch /\ pc' = (IF source = "keyboard" THEN "read" ELSE "done")
+                                     /\ UNCHANGED <<lines, source, infmt, dictoff, dict, out, lay>>     \* Read . Check . Tokenize . Tag
+    [] e.e = "parse" /\ pc = "filter" -> pc' = "print" /\ UNCHANGED <<lines, source, infmt, dictoff, unread, batch, cats, dict, out, iter, lay>>
+    [] e.e = "print" /\ pc = "print" -> /\ out' = out \o batch /\ lay' = lay \o Lays(batch) /\ pc' = (IF source = "keyboard" THEN "read" ELSE "done")
                                         /\ UNCHANGED <<lines, source, infmt, dictoff, unread, batch, cats, dict, iter>>
     [] e.e = "end" -> pc' = (IF e.kind \in {"done", "eof_error", "assertion_error"} THEN e.kind ELSE "done")
-                      /\ UNCHANGED <<lines, source, infmt, dictoff, unread, batch, cats, dict, out, iter>>
+                      /\ UNCHANGED <<lines, source, infmt, dictoff, unread, batch, cats, dict, out, iter, lay>>
     [] OTHER -> UNCHANGED vars
 TNext == /\ l <= Len(Trace) /\ l' = l + 1
          /\ Step(Trace[l])
